@@ -128,7 +128,7 @@ PROJECTIONS = {
     "fees": proj_by_op({"batch": ("fp", "tips"), "seal": ("fp", "tips", "coins"), "w": ("all",)}, default=("none",)),
     "settlement": proj_by_op({"seal": ("coins", "pools", "pools_n")}, default=("none",)),
     "pools": proj_by_op({"seal": ("pools", "pools_n"), "next": ("pools", "pools_n")}, default=("none",)),
-    "stakes": proj_by_op({"batch": ("stakes",), "next": ("stakes",), "block": ("stakes",)}, default=("none",)),
+    "stakes": proj_by_op({"batch": ("stakes",), "next": ("stakes",), "block": ("stakes",), "confirm": ("all",)}, default=("none",)),
     "speed": proj_by_op({"batch": ("ds",)}, default=("none",)),
     "chain": proj_by_op({"next": ("all",), "block": ("all",), "restore": ("all",), "mt": ("all",), "mp": ("all",), "dt": ("all",), "dp": ("all",)}, default=("none",)),
     "blocks": proj_by_op({"block": ("status",)}, default=("none",)),
